@@ -16,7 +16,7 @@ inductive Sel where
   | name (s : List Nat)
   | index (i : Int)
   | all
-  | rec (s : List Nat)
+  | desc (s : List Nat)
 deriving Repr, DecidableEq, Inhabited
 
 inductive BR where
@@ -125,13 +125,13 @@ def go (m : Mode) (buf : List Nat) : BR :=
   | .recur, c :: r =>
     if c = cDot ∨ c = cLb ∨ c = cRb ∨ c = cDollar ∨ c = cStar then .err
     else go (.recLoop []) (c :: r)
-  | .recLoop pre, [] => .ok pre.length [.rec pre.reverse]
+  | .recLoop pre, [] => .ok pre.length [.desc pre.reverse]
   | .recLoop pre, c :: r =>
     if c = cDollar ∨ c = cStar ∨ c = cRb then .err
     else if c = cDot then
-      (if r = [] then .err else (go .selector r).shift (pre.length + 1) [.rec pre.reverse])
+      (if r = [] then .err else (go .selector r).shift (pre.length + 1) [.desc pre.reverse])
     else if c = cLb then
-      (if r = [] then .err else (go .idx r).shift (pre.length + 1) [.rec pre.reverse])
+      (if r = [] then .err else (go .idx r).shift (pre.length + 1) [.desc pre.reverse])
     else go (.recLoop (c :: pre)) r
   -- buildIndex
   | .idx, [] => .panic
@@ -159,7 +159,7 @@ termination_by (buf.length, m.rank)
 decreasing_by
   all_goals simp_wf
   all_goals simp only [Mode.rank, Prod.lex_def]
-  all_goals omega
+  all_goals first | omega | exact Or.inr ⟨trivial, Nat.zero_lt_one⟩
 
 inductive Built where
   | ok (sels : List Sel)
@@ -200,7 +200,7 @@ child: the value itself is selected) -/
 def field (sels : List Sel) (key : List Nat) : Option (List Sel) :=
   match sels with
   | .name s :: rest => if s = key then some rest else none
-  | .rec s :: rest => if s = key then some rest else none   -- unchained: child nil; chained: the next node
+  | .desc s :: rest => if s = key then some rest else none   -- unchained: child nil; chained: the next node
   | _ => none                                               -- index / index-all: a name selects nothing
 
 /-- `PathNode.Index` -/
@@ -208,12 +208,12 @@ def index (sels : List Sel) (i : Nat) : Option (List Sel) :=
   match sels with
   | .index k :: rest => if k = Int.ofNat i then some rest else none
   | .all :: rest => some rest
-  | .rec s :: rest => some (.rec s :: rest)   -- the recursive node stays the current node
+  | .desc s :: rest => some (.desc s :: rest)   -- the recursive node stays the current node
   | _ => none
 
 def isRec (sels : List Sel) : Bool :=
   match sels with
-  | .rec _ :: _ => true
+  | .desc _ :: _ => true
   | _ => false
 
 mutual
@@ -250,5 +250,42 @@ def extract (sels : List Sel) (doc : JV) : List JV :=
   match sels with
   | [] => [doc]
   | _ => walk sels doc
+
+/-! ### reference semantics: each selector maps a value to the list of values it selects, in
+document order; a path is the composition of its selectors -/
+
+def membersNamed (n : List Nat) : JMs → List JV
+  | .nil => []
+  | .cons k v r => (if n = k then [v] else []) ++ membersNamed n r
+
+def elems : JVs → List JV
+  | .nil => []
+  | .cons v r => v :: elems r
+
+mutual
+/-- the values of all members named `n` of the value and of everything inside it -/
+def descV (n : List Nat) : JV → List JV
+  | .scalar _ => []
+  | .arr es => descEs n es
+  | .obj ms => descMs n ms
+def descEs (n : List Nat) : JVs → List JV
+  | .nil => []
+  | .cons v r => descV n v ++ descEs n r
+def descMs (n : List Nat) : JMs → List JV
+  | .nil => []
+  | .cons k v r => (if n = k then [v] else []) ++ descV n v ++ descMs n r
+end
+
+def step (s : Sel) (v : JV) : List JV :=
+  match s, v with
+  | .name n, .obj ms => membersNamed n ms
+  | .index i, .arr es => if 0 ≤ i then ((elems es)[i.toNat]?).toList else []
+  | .all, .arr es => elems es
+  | .desc n, v => descV n v
+  | _, _ => []
+
+def eval : List Sel → JV → List JV
+  | [], v => [v]
+  | s :: rest, v => (step s v).flatMap (eval rest)
 
 end GoJson.Model.Path
